@@ -39,6 +39,34 @@ fn sanitize(msg: &str) -> String {
 	}
 	s.chars().take(80).collect()
 }
+/// is a window of exactly PeriodType::MAX elements implied by the parameters? (one of the integers in
+/// their textual form is MAX, or two of them are the `left`/`right` of a pivot window: a + b + 1 == MAX)
+fn max_class_of(nums: &[u64]) -> &'static str {
+	let m = PeriodType::MAX as u64;
+	let mut has = nums.iter().any(|x| *x == m);
+	for i in 0..nums.len() {
+		for j in 0..nums.len() {
+			if i != j && nums[i] + nums[j] + 1 == m {
+				has = true;
+			}
+		}
+	}
+	if has {
+		"/a-window-length-is-PeriodType::MAX"
+	} else {
+		"/no-window-length-is-PeriodType::MAX"
+	}
+}
+fn max_class(text: &str) -> &'static str {
+	let nums: Vec<u64> = text.split(|c: char| !c.is_ascii_digit()).filter_map(|tok| tok.parse().ok()).collect();
+	max_class_of(&nums)
+}
+fn max_class_p(p: &Params) -> &'static str {
+	match p {
+		Params::W(w) => max_class_of(&[w.len() as u64]),
+		o => max_class(&o.show()),
+	}
+}
 fn psig(p: &PanicInfo) -> String {
 	format!("{}@{}", sanitize(&p.msg), p.file_short())
 }
@@ -121,7 +149,7 @@ fn methods_block(thorough: bool) -> (VioSink, Tally) {
 			Tally::add(&t.cases, 1);
 			match catch(|| (sp.ctor)(p, &v0)) {
 				Err(pn) => {
-					sink.push(&format!("{name}/new/panic:{}", psig(&pn)), format!("{name}::new({})", p.show()), format!("panicked at {}: {}", pn.at(), pn.msg));
+					sink.push(&format!("{name}/new/panic:{}{}", psig(&pn), max_class_p(p)), format!("{name}::new({})", p.show()), format!("panicked at {}: {}", pn.at(), pn.msg));
 					None
 				}
 				Ok(Err(_)) => {
@@ -317,7 +345,7 @@ fn indicators_block(thorough: bool) -> (VioSink, Tally) {
 			};
 			let case = format!("{name} {{{what}}}");
 			match catch(|| c.init(&ks[1])) {
-				Err(p) => sink.push(&format!("{name}/init/panic:{}", psig(&p)), case, format!("validate() = {valid}; init panicked at {}: {}", p.at(), p.msg)),
+				Err(p) => sink.push(&format!("{name}/init/panic:{}{}", psig(&p), max_class(&c.to_json().unwrap_or_default())), case, format!("validate() = {valid}; init panicked at {}: {}", p.at(), p.msg)),
 				Ok(Err(_)) => Tally::add(&t.err, 1),
 				Ok(Ok(inst)) => {
 					Tally::add(&t.ok, 1);
